@@ -26,14 +26,15 @@ const ALPHABET: &[&str] = &[
     "dir,67,0,n,33,0,n,0,n",      // add_directory "g"
     "sym,68,74,0,n,33,0,n,0,n",   // add_symlink "h" -> "t"
     "c,6b",                       // set_raw_comment "k"
+    "fl",                         // Write::flush
     "rc,0,0,same",                // raw_copy_file(source 0, entry 0)
     "fin",                        // finish
 ];
 
 /// The reduced alphabet for one level more.
-const CORE: &[usize] = &[0, 1, 4, 5, 7, 10, 11, 12, 15, 16];
+const CORE: &[usize] = &[0, 1, 4, 5, 7, 10, 11, 12, 15, 16, 17];   // no call of it ever installs an encoder: `fl` (15) meets stored / closed writers
 /// … and the smallest one (start_file, sx with a refused level, write, end_extra_data, add_directory, finish).
-const MINI: &[usize] = &[0, 5, 7, 10, 12, 16];
+const MINI: &[usize] = &[0, 5, 7, 10, 12, 17];
 
 fn source_archive() -> Vec<u8> {
     let mut w = zip::ZipWriter::new(Cursor::new(Vec::new()));
@@ -66,13 +67,16 @@ enum Tri { Yes, No, Unknown }
 
 fn is_ok(tok: &str) -> bool { tok == "ok" || tok.starts_with("ok=") }
 
-fn refused(method: u16, level: Option<i32>) -> bool {
-    match method {
-        0 => false,
-        8 => level.map(|l| !(0..=9).contains(&l)).unwrap_or(false),
-        12 => level.map(|l| !(1..=9).contains(&l)).unwrap_or(false),
-        93 => level.map(|l| !(-131072..=22).contains(&l)).unwrap_or(false),
-        _ => true,
+/// Why a start call with this method / level must fail (`None`: it need not).
+fn refused(method: u16, level: Option<i32>) -> Option<String> {
+    match super::write::level_range(method) {
+        // a compression level outside the documented range of a compressing method
+        Some(rg) => match level {
+            Some(l) if !rg.contains(&l) => Some(format!("compression level {l} outside the documented range {}..={} of method {method}", rg.start(), rg.end())),
+            _ => None,
+        },
+        None if method == 0 => None,
+        None => Some(format!("unsupported compression method {method}")),
     }
 }
 
@@ -111,7 +115,7 @@ pub fn misuse_oracle(calls: &[String], tokens: &[String]) -> Vec<String> {
             "sf" | "sx" | "sa" | "dir" | "sym" | "rc" => {
                 if matches!(x[0], "sf" | "sa") {
                     if let Some(o) = super::write::Opts::parse(&x[2..9.min(x.len())]) {
-                        if refused(o.method, o.level) && ok { fails.push(format!("call {i}: `{}` succeeded with an unsupported method or an out-of-range level", x[0])); }
+                        if let (Some(why), true) = (refused(o.method, o.level), ok) { fails.push(format!("call {i}: `{}` succeeded with {why}", x[0])); }
                     }
                 }
                 if ok {
@@ -143,7 +147,7 @@ impl Stream for CallSeq {
         // (full-alphabet depth, core-alphabet depth, mini-alphabet depth)
         let (dfull, dcore, dmini) = if thorough { (4, 5, 6) } else { (3, 4, 0) };
         g.rule = format!(
-            "EXHAUSTIVE: every sequence of writer calls of length 1..{dfull} over a {}-call alphabet covering the whole public call set (start_file stored / deflated / refused level / encrypted, start_file_with_extra_data valid and with a refused level, start_file_aligned, write of data / of a valid extra record / of a reserved record, end_extra_data, end_local_start_central_extra_data, add_directory, add_symlink, set_comment, raw copy, finish); every sequence of length {dcore} over a {}-call core alphabet{}; the writer is dropped at the end of every sequence. non-trivial = at least two calls succeeded and the sink is returned",
+            "EXHAUSTIVE: every sequence of writer calls of length 1..{dfull} over a {}-call alphabet covering the whole public call set (start_file stored / deflated / refused level / encrypted, start_file_with_extra_data valid and with a refused level, start_file_aligned, write of data / of a valid extra record / of a reserved record, end_extra_data, end_local_start_central_extra_data, add_directory, add_symlink, set_comment, Write::flush, raw copy, finish); every sequence of length {dcore} over a {}-call core alphabet{}; the writer is dropped at the end of every sequence. non-trivial = at least two calls succeeded and the sink is returned",
             ALPHABET.len(), CORE.len(),
             if dmini > 0 { format!("; every sequence of length {dmini} over a {}-call alphabet (start_file, start_file_with_extra_data with a refused level, write, end_extra_data, add_directory, finish)", MINI.len()) } else { String::new() });
         let src = source_archive();
@@ -159,6 +163,13 @@ impl Stream for CallSeq {
             let mut calls = vec!["new".to_string()];
             let kind = format!("depth{}", s.len());
             calls.extend(s);
+            // `flush` inside a Deflated entry ends a block of its stream; the model looks the stream of an entry up
+            // by (method, level, plaintext): a sequence that writes the same plaintext twice, once with and once
+            // without such a flush (e.g. `sf c; fl; sf c`), cannot be compared and is left out (counted)
+            if calls.iter().any(|c| c == "fl") && super::write::comp_collision(&super::write::run_calls(&calls, std::slice::from_ref(&src)).comp) {
+                *g.dist.entry("skipped.flush-codec-row-collision".into()).or_insert(0) += 1;
+                continue;
+            }
             g.push(&kind, make_line(&calls, std::slice::from_ref(&src)));
         }
         g
